@@ -22,7 +22,7 @@ inductive OutOk (env : Env) (sup : Support) : Bool → Bool → TyName → Prop
   | optRefOpaque (is iro lt m t) : isOpaque env t = true → OutOk env sup is iro (.opt (.ref lt m t) .std)
   | optBoxOpaque (is iro t) : isOpaque env t = true → OutOk env sup is iro (.opt (.box t) .std)
   | optNamed (is iro n sd) : isOpaque env (.named n) = false → (is && decide (sd = .std)) = false →
-      sup.option = true → OutOk env sup is true (.named n) → OutOk env sup is iro (.opt (.named n) sd)
+      sup.option = true → OutOk env sup is false (.named n) → OutOk env sup is iro (.opt (.named n) sd)
   | optPrim (is iro p sd) : (is && decide (sd = .std)) = false → sup.option = true →
       OutOk env sup is iro (.opt (.prim p) sd)
   | borrowedStr (is iro lt e sd) : OutOk env sup is iro (.strRef (some lt) e sd)
@@ -118,13 +118,13 @@ theorem out_gate_iff (env : Env) (sup : Support) (is iro : Bool) (t : TyName) :
               by_cases hx : sup.option = true
               · exact hx
               · simp [hx] at h
-            exact OutOk.optNamed is iro n sd ho' hs' hopt ((outErrs_named env sup is true n).mp h.2)
+            exact OutOk.optNamed is iro n sd ho' hs' hopt ((outErrs_named env sup is false n).mp h.2)
       · intro h
         cases h with
         | optNamed _ _ _ _ ho hs hopt hin =>
           unfold outErrs
           simp only [ho, Bool.false_eq_true, if_false, hs, hopt, if_true, List.nil_append]
-          exact (outErrs_named env sup is true n).mpr hin
+          exact (outErrs_named env sup is false n).mpr hin
     case prim p =>
       constructor
       · intro h
